@@ -55,9 +55,14 @@ def members_internal(fog):
     s = getattr(fog, "_unexplored_prefixes", None)
     if s is not None:
         return set(tuple(int(x) for x in p) for p in s)
-    raw = fog.serialize()
-    lst = ast.literal_eval(raw[len(b"HexaryTrieFog:"):].decode())
-    return set(hp_decode(b) for b in lst)
+    try:
+        raw = fog.serialize()
+        lst = ast.literal_eval(raw[len(b"HexaryTrieFog:"):].decode())
+        return set(hp_decode(b) for b in lst)
+    except Exception:
+        # neither the attribute nor the serialisation format is promised: fall back on the
+        # public queries
+        return set(members_public(fog))
 
 
 def _succ(p):
